@@ -57,6 +57,8 @@ pub struct SimFactory {
 	pub rec: Recorder,
 	pub kids: Arc<Vec<Kid>>,
 	pub next: Arc<AtomicI64>,
+	/// first child index of this job minus one (several jobs share one recorder)
+	pub base: i64,
 }
 
 impl SimFactory {
@@ -65,6 +67,7 @@ impl SimFactory {
 			rec,
 			kids: Arc::new(kids),
 			next: Arc::new(AtomicI64::new(0)),
+			base: 0,
 		}
 	}
 
@@ -81,7 +84,7 @@ impl SimFactory {
 		command.command_mut().env("VERIF_TAG", tag.to_string());
 		let kid = self
 			.kids
-			.get((n - 1) as usize)
+			.get((n - 1 - self.base) as usize)
 			.cloned()
 			.or_else(|| self.kids.last().cloned())
 			.unwrap_or_default();
